@@ -69,6 +69,9 @@ pub enum Purpose {
     Propose,
 }
 
+/// marker in `ScriptItem::signer_hint`: the caller declared the empty signer set
+pub const DECLARED_NO_SIGNERS: usize = usize::MAX;
+
 #[derive(Clone, Debug)]
 pub struct ScriptItem {
     pub purpose: Purpose,
@@ -137,6 +140,8 @@ pub struct Outcome {
     pub unlocked_markers: Vec<u64>,
     /// certificates that are script-locked by the ledger's rules and were admitted by plain add() (no witness)
     pub unwitnessed_locked: Vec<Vec<u8>>,
+    /// certificates in the order of their first successful insertion
+    pub cert_order: Vec<Vec<u8>>,
 }
 
 #[derive(Clone, Copy)]
@@ -152,11 +157,13 @@ pub struct Focus {
     /// allow registering an existing input once more with another witness kind (C10 only: elsewhere a re-added
     /// input is an exact repeat, the one precondition on input operations)
     pub re_register: bool,
+    /// replaces the tape-decoded max_tx_size (second pass of C07: the same history under a limit just below its size)
+    pub max_tx_size_override: Option<u32>,
 }
 
 impl Focus {
     pub fn general() -> Focus {
-        Focus { scripts: 70, certs: 60, assets: 90, many_assets: false, governance: 40, boundaries: true, max_ops: 14, selection: 70, re_register: false }
+        Focus { scripts: 70, certs: 60, assets: 90, many_assets: false, governance: 40, boundaries: true, max_ops: 14, selection: 70, re_register: false, max_tx_size_override: None }
     }
 }
 
@@ -440,8 +447,15 @@ impl<'a> Run<'a> {
             let mut s = NativeScriptSource::new(&self.w.natives[idx]);
             if !hint.is_empty() {
                 s.set_required_signers(&self.hint_hashes(&hint));
+                (s, None, hint)
+            } else if self.t.chance(50) {
+                // declaring that NO key signs for this script (time-lock branch, 0-of-n) is a declaration too: it is
+                // not the same as declaring nothing, where the builder counts every key the script names
+                s.set_required_signers(&Ed25519KeyHashes::new());
+                (s, None, vec![DECLARED_NO_SIGNERS])
+            } else {
+                (s, None, hint)
             }
-            (s, None, hint)
         }
     }
 
@@ -779,9 +793,9 @@ impl<'a> Run<'a> {
             _ => Certificate::new_stake_vote_registration_and_delegation(&StakeVoteRegistrationAndDelegation::new(&cred, &pool, &drep, &bn(coin))),
         };
         let cbytes = cert.to_bytes();
-        if self.cert_seen.contains(&cbytes) {
-            return;
-        }
+        // the same certificate again: the builder refuses it ("already exists"); should it ever take it, the set must
+        // neither grow nor reorder (first-insertion order), and the new witness replaces the old one
+        let again = self.cert_seen.contains(&cbytes);
         // Whether the certificate is script-locked is the ledger's rule, not the library's answer: the credential that
         // authorises it (stake / cold / DRep credential) is a script hash. Pool certificates are authorised by keys.
         // A legacy registration (kind 0) needs no witness at all in the ledger; there the library's own answer is used.
@@ -792,6 +806,7 @@ impl<'a> Run<'a> {
             let (src, refin, hint) = self.native_source(ci);
             ok = self.call("cb.add_with_native_script", |s| s.cb.add_with_native_script(&cert, &src)).is_some();
             if ok {
+                self.items.retain(|it| !(it.purpose == Purpose::Cert && it.target == cbytes));
                 self.items.push(ScriptItem { purpose: Purpose::Cert, target: cbytes.clone(), plutus: false, script_index: ci, script_hash: self.w.native_hash(ci).to_bytes(), script_ref_input: refin, witness_datum: None, datum_ref_input: None, marker: None, signer_hint: hint });
             }
         } else if needs_script && ck == 2 {
@@ -801,13 +816,14 @@ impl<'a> Run<'a> {
             ok = self.call("cb.add_with_plutus_witness", |s| s.cb.add_with_plutus_witness(&cert, &wit)).is_some();
             if ok {
                 self.plutus_used = true;
+                self.items.retain(|it| !(it.purpose == Purpose::Cert && it.target == cbytes));
                 self.items.push(ScriptItem { purpose: Purpose::Cert, target: cbytes.clone(), plutus: true, script_index: ci, script_hash: self.w.plutus_hash(ci).to_bytes(), script_ref_input: refin, witness_datum: None, datum_ref_input: None, marker: Some(marker), signer_hint: hint });
             }
         } else {
             ok = self.call("cb.add", |s| s.cb.add(&cert)).is_some();
         }
         // a refused caller follows the builder's advice and takes the other door; whatever gets in that way is recorded
-        if !ok && kind != 0 && kind != 5 && kind != 6 {
+        if !ok && !again && kind != 0 && kind != 5 && kind != 6 {
             if needs_script {
                 if self.call("cb.add(after the script route was refused)", |s| s.cb.add(&cert)).is_some() {
                     ok = true;
@@ -825,11 +841,13 @@ impl<'a> Run<'a> {
             }
         }
         if ok {
-            self.cert_seen.push(cbytes);
+            if !again {
+                self.cert_seen.push(cbytes);
+            }
             self.used.0 = true;
             let cb = self.cb.clone();
             self.tb.set_certs_builder(&cb);
-            self.ops.push(format!("cert(kind{},cred{}/{})", kind, ck, ci));
+            self.ops.push(format!("cert(kind{},cred{}/{}{})", kind, ck, ci, if again { ",accepted again" } else { "" }));
         }
     }
 
@@ -1125,7 +1143,10 @@ pub fn native_script_keys(idx: usize) -> Vec<usize> {
 pub fn run(tape: &[u8], focus: Focus) -> Option<Outcome> {
     let (plan, content) = split_plan(tape, 48);
     let mut pt = Tape::new(plan);
-    let params = params_from(&mut pt, focus.boundaries);
+    let mut params = params_from(&mut pt, focus.boundaries);
+    if let Some(m) = focus.max_tx_size_override {
+        params.max_tx_size = m;
+    }
     let cfg = match catch(|| config_of(&params)) {
         Ok(Ok(c)) => c,
         _ => return None,
@@ -1271,8 +1292,17 @@ pub fn run(tape: &[u8], focus: Focus) -> Option<Outcome> {
     r.w.cost_model_values = cmv;
     // funding: make most scenarios balance
     let change_k = r.t.choose(6);
-    let change_kind = r.t.choose(3);
-    let change_addr = r.w.key_address(change_k, change_kind, 1);
+    let change_kind = r.t.choose(4);
+    // change may go to a long legacy (Daedalus-style, derivation-path attribute) Byron address: such an output is
+    // larger than one with the 57-byte base address the library's calculators assume when none is given
+    let change_addr = if change_kind == 3 {
+        let hd_len = [28usize, 0, 64, 30][r.t.choose(4)];
+        let hd: Vec<u8> = pool_bytes(change_k as u8, hd_len.max(1), 79)[..hd_len].to_vec();
+        let hd_cbor = crate::cbor::encode(&crate::cbor::bytes(&hd));
+        crate::props::c07::byron_with_payload(&pool_bytes(change_k as u8, 28, 78), &hd_cbor, if r.t.bool() { Some(1097911063) } else { None }).unwrap_or_else(|| r.w.key_address(change_k, 0, 1))
+    } else {
+        r.w.key_address(change_k, change_kind, 1)
+    };
     let select = balancing >= 4 && balancing <= 6;
     if fund && !select {
         let est_fee: u128 = catch(|| r.tb.min_fee()).ok().and_then(|x| x.ok()).map(|f| u64::from(f) as u128).unwrap_or(300_000).max(match &fee_request {
@@ -1456,5 +1486,6 @@ pub fn run(tape: &[u8], focus: Focus) -> Option<Outcome> {
         required_signer_hints_plain: r.hints_plain,
         unlocked_markers: r.unlocked_markers,
         unwitnessed_locked: r.unwitnessed_locked,
+        cert_order: r.cert_seen,
     })
 }
